@@ -284,6 +284,47 @@ theorem C04_block_signed_only_after_check_and_update (cfg : Cfg) (s : State) (sl
   · exact absurd h h2
   · exact ⟨hacc, hp, hprop, hc, by simp only [step, heq], by simp only [step, heq]⟩
 
+/-- a sign request whose record write fails (storage error, or the database is closed under the request between
+    its check and its write) releases NOTHING and changes nothing — for every state; when the plain request would
+    have been signed the refusal is `writeFailed`, otherwise it is the plain request's own refusal.
+    Together with `C04_signed_only_after_check_and_update`: released ⇒ the raised record was written. -/
+theorem C04_failed_write_refuses (cfg : Cfg) (s : State) (x y slot : Nat) :
+    (step cfg s (.signAttFault x y)).1 = s ∧ (step cfg s (.signAttFault x y)).2 ≠ .signed ∧
+    (step cfg s (.signBlockFault slot)).1 = s ∧ (step cfg s (.signBlockFault slot)).2 ≠ .signed ∧
+    ((step cfg s (.signAtt x y)).2 = .signed → (step cfg s (.signAttFault x y)).2 = .refused .writeFailed) ∧
+    ((step cfg s (.signBlock slot)).2 = .signed → (step cfg s (.signBlockFault slot)).2 = .refused .writeFailed) := by
+  refine ⟨(stepSignAttFault_state cfg s x y).1, (stepSignAttFault_state cfg s x y).2,
+    (stepSignBlockFault_state cfg s slot).1, (stepSignBlockFault_state cfg s slot).2, ?_, ?_⟩
+  · intro h
+    simp only [step] at h ⊢
+    unfold stepSignAttFault
+    split
+    · rfl
+    · rename_i o hne heq
+      rw [heq] at h
+      simp only at h
+      subst h
+      first | exact (hne _).elim | exact (hne _ rfl).elim | exact (hne rfl).elim
+  · intro h
+    simp only [step] at h ⊢
+    unfold stepSignBlockFault
+    split
+    · rfl
+    · rename_i o hne heq
+      rw [heq] at h
+      simp only at h
+      subst h
+      first | exact (hne _).elim | exact (hne _ rfl).elim | exact (hne rfl).elim
+
+/-- non-vacuity: a request that would be signed is refused with `writeFailed` when its write fails, the record
+    stays (10,11) after the following restart, and the same target is then still protected -/
+example :
+    let s := run cfg32 (init 320) [.addShare, .tick 40, .signAtt 10 11, .tick 32]
+    (step cfg32 s (.signAtt 11 12)).2 = .signed ∧
+    (step cfg32 s (.signAttFault 11 12)).2 = .refused .writeFailed ∧
+    (run cfg32 s [.signAttFault 11 12, .restart, .signAtt 9 11]).atts = [(10, 11)] ∧
+    (run cfg32 s [.signAttFault 11 12, .restart, .signAtt 9 11]).d.att = some (10, 11) := by decide
+
 /-! ## restart -/
 
 /-- a restart changes nothing durable and releases nothing; it only kills an in-flight bump -/
